@@ -696,18 +696,30 @@ func runDM(name string, cases []dmCase, chunk int) {
 // whenever U's size is admissible (U is the smallest symbol for the content).
 var dmFamilies = []struct{ name, unit string }{
 	{"upper(C40)", "A"}, {"lower(Text)", "a"}, {"x12", ">"}, {"edifact", "@"}, {"latin1(Base256)", "é"}, {"mixed", "Ab1 "},
+	{"edifact2", ".@"}, {"digits+upper", "12AB"},
+	{"macro05:edifact2", ".@"}, {"macro06:upper(C40)", "A"}, {"macro05:lower(Text)", "a"}, {"macro06:digits", "7"}, {"macro05:x12", ">"}, {"macro06:latin1(Base256)", "é"},
 }
 
 func dmContent(fam, n int) string {
 	u := []rune(dmFamilies[fam].unit)
 	var sb strings.Builder
+	name := dmFamilies[fam].name
+	if strings.HasPrefix(name, "macro05:") {
+		sb.WriteString("[)>\x1e05\x1d")
+	} else if strings.HasPrefix(name, "macro06:") {
+		sb.WriteString("[)>\x1e06\x1d")
+	}
 	for i := 0; i < n; i++ {
 		sb.WriteRune(u[i%len(u)])
+	}
+	if strings.HasPrefix(name, "macro") {
+		sb.WriteString("\x1e\x04")
 	}
 	return sb.String()
 }
 
 type dmRead struct {
+	k      int // number of data codewords before the padding starts (0 when the stream does not decode)
 	w, h   int
 	text   string
 	ok     bool // symbol returned
@@ -745,8 +757,21 @@ func dmWriteRead(content string, shape int, min, max dmDim) (r dmRead) {
 		r.decErr = e
 		return
 	}
-	r.text, r.decErr = dm.DecodeStream(cw[:sym.DataCW])
+	var pad int
+	r.text, pad, r.decErr = dm.DecodeStreamPad(cw[:sym.DataCW])
+	if r.decErr == nil {
+		r.k = pad
+	}
 	return
+}
+
+func tableIndex(w, h int) int {
+	for i, s := range dm.Symbols {
+		if s.Cols == w && s.Rows == h {
+			return i
+		}
+	}
+	return -1
 }
 
 func admissible(w, h, shape int, min, max dmDim) bool {
@@ -790,8 +815,14 @@ func dmHintedOne(l *mc.Local, c dmCase, fam int, u dmRead) {
 		chk.Violation("C13/dm/overflow-not-refused", fmt.Sprintf("%v (%d x %q): without size hints the content needs %dx%d; with the hints a %dx%d symbol is returned that does not hold the content (the reference decoder reads %q, err %v) instead of a refusal", c, c.N, dmFamilies[fam].unit, u.w, u.h, r.w, r.h, r.text, r.decErr), c)
 		return
 	}
-	if uAdm && (r.w != u.w || r.h != u.h) {
+	// the symbol chosen without size hints is admissible and holds the content: a later row of the
+	// table is then not the first admissible one. (An EARLIER row is possible: the encoder's
+	// end-of-data decisions look at the candidate symbols, so excluding some of them can lead to a
+	// shorter encodation - counted, not a violation.)
+	if uAdm && tableIndex(r.w, r.h) > tableIndex(u.w, u.h) {
 		chk.Violation("C13/dm/writer-size/hinted-not-smallest", fmt.Sprintf("%v: %dx%d written although the smaller admissible %dx%d holds the content", c, r.w, r.h, u.w, u.h), c)
+	} else if uAdm && (r.w != u.w || r.h != u.h) {
+		l.Count("dm_hinted_symbol_earlier_in_table_than_unhinted", 1)
 	}
 }
 
@@ -806,7 +837,7 @@ func dmNonDigit() {
 			jobs = append(jobs, job{f, n})
 		}
 	}
-	chk.Range(fmt.Sprintf("DM writer, non-digit content: 6 families x length 1..%d x 3 shapes x {(min,nil),(nil,max) over the 30 symbol sizes}: hinted result vs the unhinted symbol (differential) [%d writer calls]", maxN, len(jobs)*3*61), len(jobs),
+	chk.Range(fmt.Sprintf("DM writer, non-digit content: 14 families (6 homogeneous, 2 mixed, 6 inside 05/06 macro envelopes) x length 1..%d x 3 shapes x {(min,nil),(nil,max) over the 30 symbol sizes}: hinted result vs the unhinted symbol (differential); the unhinted symbol is the first admissible one for the writer's own unpadded codeword count [%d writer calls]", maxN, len(jobs)*3*61), len(jobs),
 		func(i int) string { return fmt.Sprint(dmFamilies[jobs[i].fam].name, " n=", jobs[i].n) },
 		func(l *mc.Local, i int) {
 			j := jobs[i]
@@ -822,6 +853,12 @@ func dmNonDigit() {
 				if !u.ok || u.decErr != nil || u.text != content {
 					l.Count("dm_nondigit_premise_not_met", 1) // refused (rectangles are small) or not this property's business
 					continue
+				}
+				// self-consistency: the symbol must be the first admissible one for the number of data
+				// codewords the writer itself emitted before the padding
+				if want, ok := refLookup(u.k, s, nilD, nilD); ok && u.k > 0 && (want.Cols != u.w || want.Rows != u.h) {
+					chk.Violation("C13/dm/writer-size/not-smallest-for-own-codewords", fmt.Sprintf("DataMatrixWriter.Encode(%d x %q in family %s, shape %s): the symbol is %dx%d, but the writer's own data codewords (%d before the padding starts) fit the smaller %dx%d (%d codewords)", j.n, dmFamilies[j.fam].unit, dmFamilies[j.fam].name, shapeNames[s], u.w, u.h, u.k, want.Cols, want.Rows, want.DataCW),
+						dmCase{Kind: "dm-hinted", N: j.n, Shape: s, Min: nilD, Max: nilD, Family: dmFamilies[j.fam].name})
 				}
 				for _, d := range dims[1:31] {
 					dmHintedOne(l, dmCase{Kind: "dm-hinted", N: j.n, Shape: s, Min: d, Max: nilD, Family: dmFamilies[j.fam].name}, j.fam, u)
